@@ -258,7 +258,7 @@ func TestVerifC15(t *testing.T) {
 	first := make(map[int]string)
 	rounds := 4
 	if thorough {
-		rounds = 40
+		rounds = 16
 	}
 	var history []int
 	for round := 0; round < rounds; round++ {
